@@ -158,7 +158,7 @@ func c13Exec(r *obs.Run, p c13Plan, vals []int) (out c13Outcome) {
 		inj.dir = filepath.Join(scratch, ents[0].Name())
 	}
 	if p.Hold != nil {
-		inj.ctl = &c12Ctl{callerG: curGID(), writerOf: map[int64]int{}, encSeen: map[int]int{}, chunk: p.W.Chunk, hold: p.Hold, reachedY: make(chan struct{}), holdT: 20 * time.Millisecond}
+		inj.ctl = &c12Ctl{callerG: curGID(), writerOf: map[int64]int{}, encSeen: map[int]int{}, chunk: p.W.Chunk, hold: p.Hold, reachedY: make(chan struct{}), reachedX: make(chan struct{}), holdT: 20 * time.Millisecond}
 	}
 	morass.VerifSetStep(inj.step)
 	morass.VerifSetWrap(inj.wrap)
@@ -265,7 +265,7 @@ func c13Items(r *obs.Run) []c13Item {
 					items = append(items, c13Item{plan: c13Plan{W: w, Concurrent: conc, AutoClear: true, Fault: c13Fault{kind, n}}})
 					if conc && n <= w.writers() {
 						for _, y := range []string{"push.handoff.next", "finalise.enter"} {
-							items = append(items, c13Item{plan: c13Plan{W: w, Concurrent: true, Fault: c13Fault{kind, n}, Hold: &c12Hold{n, "write.return", y}}})
+							items = append(items, c13Item{plan: c13Plan{W: w, Concurrent: true, Fault: c13Fault{kind, n}, Hold: &c12Hold{Writer: n, X: "write.return", Y: y}}})
 						}
 					}
 				}
